@@ -11,7 +11,7 @@ import ast
 
 from .lincomb import LinComb
 from .matalg import Alg
-from .model import ClassInfo, FuncInfo, Program, call_name, is_self_attr, norm, strip_copy
+from .model import ClassInfo, FuncInfo, Program, call_name, is_self_attr, norm, strip_copy, inline_private_helpers
 from .poly import Rat
 from .report import AnalysisError
 
@@ -197,6 +197,9 @@ class BlockEval:
             g = self.k.resolve_super(f.cls, call_name(e).split(".")[1])
             if g is None:
                 raise AnalysisError(f"{f.qualname}: {call_name(e)} not resolved")
+            import dataclasses
+
+            g = dataclasses.replace(g, node=inline_private_helpers(g, methods=True))
             env2 = {p: self.ev(f, a, env) for p, a in zip(g.params[1:], e.args)}
             return self._block(g, g.body_without_docstring(), env2)
         if isinstance(e, ast.Name):
